@@ -1346,9 +1346,20 @@ class Executor(Generic[TContext]):
                     append_awaitable(index)
 
                 index += 1
-        except (Exception, CancelledError):
+        except CancelledError:
             # Also close the iterator when the completion is cancelled, since
             # otherwise a source that is suspended between two items stays open.
+            if early_return is not None:  # pragma: no branch
+                with suppress_exceptions:
+                    await early_return()
+            # The awaitable items already collected have not been started yet
+            # and must not start now, as their results would never be delivered.
+            for index in awaitable_indices:
+                awaitable = completed_results[index]
+                if iscoroutine(awaitable):  # pragma: no branch
+                    awaitable.close()
+            raise
+        except Exception:
             if early_return is not None:  # pragma: no branch
                 with suppress_exceptions:
                     await early_return()
